@@ -649,3 +649,38 @@ func init() {
 	replayers["(*RollingFileLogger).Stop"] = rolling
 	replayers["(*RollingFileLogger).Start"] = rolling
 }
+
+func init() {
+	replayers["(*AsyncLogger).Write"] = func(in map[string]any) {
+		for _, pol := range []BufferFullPolicy{BufferFullPolicyBlock, BufferFullPolicyDiscard, BufferFullPolicyDiscardOldest} {
+			app := &recAppender{}
+			l := &AsyncLogger{LoggerBase: LoggerBase{Level: LevelRange{NoneLevel, MaxLevel}}, BufferSize: 100, BufferFullPolicy: pol}
+			l.AppenderRefs.AppenderRefs = []*AppenderRef{{Appender: app, Level: LevelRange{NoneLevel, MaxLevel}}}
+			// keep the worker away while the caller reuses its buffer: start only after the writes
+			l.buf = make(chan any, l.BufferSize)
+			l.wait = make(chan struct{})
+			l.stop = &Event{}
+			buf := []byte("first line\n")
+			l.Write(buf)
+			copy(buf, "SECOND!!!!\n") // the caller recycles its buffer, as io.Writer allows
+			l.Write(buf)
+			go func() {
+				for v := range l.buf {
+					if v == l.stop {
+						break
+					}
+					if b, ok := v.([]byte); ok {
+						app.Write(b)
+					}
+				}
+				close(l.wait)
+			}()
+			l.Stop()
+			if len(app.raws) != 2 || app.raws[0] != "first line\n" || app.raws[1] != "SECOND!!!!\n" {
+				fmt.Printf("REPLAY: confirmed AsyncLogger.Write(policy=%d): caller wrote %q then reused the buffer for %q; the appender received %q (the queued slice aliases the caller's buffer)\n", pol, "first line\n", "SECOND!!!!\n", app.raws)
+				return
+			}
+		}
+		fmt.Println("REPLAY: not-reproduced")
+	}
+}
